@@ -632,6 +632,9 @@ func pqConcurrent(seed int64, cfg pqengine.Config, nEvents int) []string {
 		if rs.Intn(4) == 0 {
 			sizes[i] = 1 + rs.Intn(40)
 		}
+		if seed%5 == 2 && rs.Intn(8) == 0 {
+			sizes[i] = 0 // an event without contents (Next without Write)
+		}
 		if cfg.MaxSize != 0 && cfg.MaxSize <= 64*uint64(cfg.PageSize) && rs.Intn(3) == 0 {
 			// small bounded file: events that (nearly) fill the write buffer, so that the flush inside Next is the one that
 			// meets the full file
@@ -720,6 +723,15 @@ func pqConcurrent(seed int64, cfg pqengine.Config, nEvents int) []string {
 				fail("Begin: %v", err)
 				return
 			}
+			// Next reports 0 for an event without contents and at the end of the queue alike: the number of events the
+			// read transaction can see tells them apart
+			avail, aerr := rd.Available()
+			if aerr != nil {
+				fail("Available: %v", aerr)
+				rd.Done()
+				return
+			}
+			seen := uint(0)
 			for {
 				sz, err := rd.Next()
 				if err != nil {
@@ -728,8 +740,19 @@ func pqConcurrent(seed int64, cfg pqengine.Config, nEvents int) []string {
 					return
 				}
 				if sz == 0 {
+					if seen < avail && consumed < nEvents && sizes[consumed] == 0 {
+						seen++
+						consumed++
+						continue
+					}
+					if seen < avail {
+						fail("event #%d: the reader reports the end of the queue (or an empty event) although %d of the %d visible events were delivered and the event has %d bytes", consumed, seen, avail, sizes[minInt(consumed, nEvents-1)])
+						rd.Done()
+						return
+					}
 					break
 				}
+				seen++
 				if consumed >= nEvents {
 					fail("the consumer received more events than were produced")
 					rd.Done()
